@@ -19,7 +19,7 @@ RULE = "one case = one feasible path of one policy operation from a symbolic pol
 
 
 def bounds(tier):
-    return {"lru_access_associativity": "1..6" if tier == "quick" else "1..8", "lru_repr_associativity": "1..4" if tier == "quick" else "1..6", "plru_associativity": [1, 2, 4, 8] if tier == "quick" else [1, 2, 4, 8, 16]}
+    return {"lru_access_associativity": "1..6" if tier == "quick" else "1..8", "lru_repr_associativity": "1..4" if tier == "quick" else "1..6", "plru_associativity": [1, 2, 4, 8], "fill_ways": [2, 4]}
 
 
 def sym_perm(e, n, name="L"):
@@ -228,7 +228,8 @@ def jobs(tier, seed):
     for n in range(1, 5 if tier == "quick" else 7):
         out.append({"label": "lru-repr-%d" % n, "harness": "lru_repr", "args": {"n": n}, "cost": n**4, "validate_every": 1 if n < 5 else 9})
     out.append({"label": "crosshair", "harness": "crosshair", "args": {"timeout": 20 if tier == "quick" else 60, "require_all": tier == "thorough"}, "cost": 1000, "validate": False})
-    for n in [1, 2, 4, 8] + ([16] if tier == "thorough" else []):
+    # PLRU 16 is out of reach for eager forking (2^15 tree states x 16 accesses paths): stated bound 8
+    for n in [1, 2, 4, 8]:
         out.append({"label": "plru-%d" % n, "harness": "plru", "args": {"n": n}, "cost": n * n, "validate_every": 1 if n < 8 else 11})
     for repl in ("lru", "plru"):
         for ways in (2, 4):
